@@ -1,11 +1,19 @@
 #!/bin/bash
 # usage: try_seed_wt.sh <seed-id> <check-id> [extra ./check args]
 # Like try_seed.sh but leaves /repo alone: the seed is applied in a scratch worktree and the check is built against it (VERIF_REPO).
+# A patch written against an older commit of /repo is re-based with a three-way merge.
 sid=$1; shift; cid=$1; shift
 wt=/tmp/wt/try-$sid-$cid-$$
 git -C /repo worktree add -q --detach $wt HEAD || exit 2
 trap "git -C /repo worktree remove --force $wt" EXIT
-git -C $wt apply /verif/seeded/$sid/patch.diff 2>/dev/null || { git -C $wt apply --3way /verif/seeded/$sid/patch.diff >/dev/null 2>&1 && ! git -C $wt diff --name-only --diff-filter=U | grep -q . && git -C $wt reset -q; } || { echo "patch does not apply"; exit 2; }
+apply_patch() {
+  git -C $wt apply /verif/seeded/$sid/patch.diff 2>/dev/null && return 0
+  git -C $wt apply --3way /verif/seeded/$sid/patch.diff >/dev/null 2>&1 || return 1
+  if git -C $wt diff --name-only --diff-filter=U | grep -q .; then return 1; fi
+  git -C $wt reset -q
+  return 0
+}
+if ! apply_patch; then echo "patch does not apply"; echo "seed=$sid check=$cid exit=2"; exit 2; fi
 cd /verif
 VERIF_REPO=$wt ./check $cid "$@" > /tmp/try-$sid-$cid.log 2>&1; rc=$?
 grep -E "^(VIOLATION|violation|KNOWN|OK|NOTE|INCONCLUSIVE)" /tmp/try-$sid-$cid.log | grep -v "^KNOWN" | cut -c1-300 | head -6
